@@ -1224,6 +1224,14 @@ hwloc__xml_import_distances(hwloc_topology_t topology,
     goto out;
   }
 
+  /* the number of values (nbobjs*nbobjs) is computed and stored as an unsigned everywhere */
+  if (nbobjs > 0xffff) {
+    if (hwloc__xml_verbose())
+      fprintf(stderr, "%s: %s with too many objects %u\n",
+	      state->global->msgprefix, _TAG_NAME, nbobjs);
+    goto out;
+  }
+
   indexes = malloc(nbobjs*sizeof(*indexes));
   u64values = malloc(nbobjs*nbobjs*sizeof(*u64values));
   if (heterotypes)
